@@ -93,6 +93,15 @@ class VirtualLoop(asyncio.SelectorEventLoop):
         self._vnow = max(self._vnow, t)
         self.quiesce()
 
+    def run_iterations(self, n: int):
+        """Run exactly n iterations of the event loop (finer than quiesce: for sub-quiescence schedules)."""
+        for _ in range(n):
+            self._run_ready_once()
+
+    def jump_to(self, t: float):
+        """Move the clock without running anything (the loop was 'frozen' across that span)."""
+        self._vnow = max(self._vnow, t)
+
     def advance(self, dt: float):
         self.advance_to(self._vnow + dt)
 
